@@ -63,6 +63,7 @@ REG = {
     -32601: pjrpc.exceptions.MethodNotFoundError, -32602: pjrpc.exceptions.InvalidParamsError,
     -32603: pjrpc.exceptions.InternalError, -32000: pjrpc.exceptions.ServerError,
     world.TYPED_CODE: world.ProbeTypedError, world.STALE_CODE: world.ProbeStaleError,
+    world.FIELDS_CODE: world.ProbeFieldErrors,
 }
 
 
